@@ -25,5 +25,15 @@ CLAIMS = {
         "technique": "Coq proof (mod-97 uniqueness by lia) + generated data obligations + extracted-model correspondence",
         "design_ref": "DESIGN.md §4 C02",
     },
+    "C03": {
+        "text": "Theorems C03_substitution / C03_transposition: for every valid IBAN (any country, any length), every same-kind "
+                "substitution at position >= 2 and every adjacent same-kind transposition (country code, check digits, the "
+                "check-digit/BBAN seam, inside the BBAN) yields an ISO-invalid text, hence (C03_constructor, via C01) one the "
+                "constructor rejects. Number theory: 97 does not divide d*10^k, 9d*10^k, 99d*10^k (|d|<36) nor d*(10^K-1) for "
+                "K<=95 (the latter a vm_compute sweep lifted by forallb_forall; K<=67 follows from the proved length bound 34).",
+        "note": COMMON_NOTE,
+        "technique": "Coq proof (positional expansion of the rearranged number, coprimality with 97 by induction, lia) + data obligations + correspondence",
+        "design_ref": "DESIGN.md §4 C03",
+    },
 }
 NOT_APPLICABLE = {}
